@@ -169,6 +169,35 @@ static std::string handle(const std::vector<std::string>& a) {
         default: break;
       }
       if (!s.empty() && s != r.substr(0, 12)) r += " SCALAR-DIFFERS:" + s;
+      // the same right operand as a NARROWER C++ integer type when its value fits: int, short, signed char and their
+      // unsigned counterparts (operands of different width and signedness take other overloads of arithmeticCompare)
+      bool isSigned = d->type() == VariantType::Int32 || d->type() == VariantType::Int64;
+      bool isUnsigned = d->type() == VariantType::Uint32 || d->type() == VariantType::Uint64;
+      // (a boolean left operand is left out: booleans against numbers are not constrained by the property, and the
+      // library answers true == (unsigned char)2 because both are one-byte unsigned types)
+      const detail::VariantData* da_ = detail::VariantAttorney::getData(va);
+      bool leftBool = da_ && da_->type() == VariantType::Boolean;
+      if ((isSigned || isUnsigned) && !leftBool) {
+        long long sv = isSigned ? vb.as<long long>() : 0;
+        unsigned long long uv = isUnsigned ? vb.as<unsigned long long>() : 0;
+        bool nonneg = isUnsigned || sv >= 0;
+        unsigned long long mag = isUnsigned ? uv : (unsigned long long)sv;   // valid when nonneg
+        std::string t;
+        auto chk = [&](const std::string& got, const char* what) { if (t.empty() && got != r.substr(0, 12)) t = std::string(" NARROW-SCALAR-DIFFERS(") + what + "):" + got; };
+        if (isSigned && sv >= -2147483647LL - 1 && sv <= 2147483647LL) chk(bits12s(va, (int)sv), "int");
+        if (isSigned && sv >= -32768 && sv <= 32767) chk(bits12s(va, (short)sv), "short");
+        if (isSigned && sv >= -128 && sv <= 127) chk(bits12s(va, (signed char)sv), "signed char");
+        if (nonneg && mag <= 2147483647ULL) chk(bits12s(va, (int)mag), "int");
+        if (nonneg && mag <= 4294967295ULL) chk(bits12s(va, (unsigned int)mag), "unsigned");
+        if (nonneg && mag <= 65535ULL) chk(bits12s(va, (unsigned short)mag), "unsigned short");
+        if (nonneg && mag <= 255ULL) chk(bits12s(va, (unsigned char)mag), "unsigned char");
+        r += t;
+      }
+    }
+    // a null C string as the right operand is a null: it must give the same answers as a null variant
+    if (!unboundB && a[2] == "n") {
+      std::string sn = bits12s(va, (const char*)nullptr);
+      if (sn != r.substr(0, 12)) r += " NULL-CSTR-DIFFERS:" + sn;
     }
     // the same operands with their non-negative integers stored through signed types (Int32/Int64 instead of
     // Uint32/Uint64): a value-level comparison cannot depend on it
